@@ -583,7 +583,17 @@ func checkFilters(p *Prog, r *Report, f *ssa.Function, ips []ipath, br map[strin
 		if ip.Exit != "return" {
 			continue
 		}
-		opens := ip.eventsOf("os.Open")
+		// the sink is the place where a line of the file is matched: a file that is opened and then skipped
+		// yields no test (its descriptor leaks, which is not this property's business)
+		var opens []ievent
+		for _, e := range ip.eventsOf(findName) {
+			if len(e.Args) >= 2 && strings.Contains(e.Args[1], "os.Open(") {
+				opens = append(opens, ievent{Callee: e.Callee, Args: []string{e.Args[1]}, In: e.In, Fn: e.Fn})
+			}
+		}
+		if len(opens) == 0 && len(ip.eventsOf(findName)) > 0 {
+			opens = ip.eventsOf("os.Open") // the line's key does not show where the file came from
+		}
 		if len(opens) == 0 {
 			continue
 		}
@@ -606,11 +616,11 @@ func checkFilters(p *Prog, r *Report, f *ssa.Function, ips []ipath, br map[strin
 				}
 			}
 			if !okName {
-				bad = fmt.Sprintf("os.Open(%s) is reached without the file name having been tested negative for all of %v on the path %s", o.Args[0], need, ip.Trace)
+				bad = fmt.Sprintf("lines of the file %s are matched without the file name having been tested negative for all of %v on the path %s", o.Args[0][:min(len(o.Args[0]), 160)], need, ip.Trace)
 			}
 			for k := range pos {
 				if strings.Contains(o.Args[0], k) {
-					bad = fmt.Sprintf("a file whose name has a skipped suffix is opened (os.Open(%s)) on the path %s", o.Args[0], ip.Trace)
+					bad = fmt.Sprintf("lines of a file whose name has a skipped suffix are matched (%s) on the path %s", o.Args[0][:min(len(o.Args[0]), 160)], ip.Trace)
 				}
 			}
 		}
@@ -619,7 +629,7 @@ func checkFilters(p *Prog, r *Report, f *ssa.Function, ips []ipath, br map[strin
 		r.Unknown("R18b", "generator file filter", f.Pos(), "no returning path opens a source file")
 		return
 	}
-	r.Check("R18b", "source files are opened only after the backup, gold and test suffixes were excluded", f.Pos(), bad == "", bad)
+	r.Check("R18b", "source files are scanned only after the backup, gold and test suffixes were excluded", f.Pos(), bad == "", bad)
 	sets := map[string][]string{}
 	for _, n := range []string{"coq", "go"} {
 		all := map[string]bool{}
